@@ -428,7 +428,16 @@ def report(ctx, problems, schemas, labels):
         cls = classify(schema, d["X"], what)
         key = cls or input_key(schema, d["X"])
         by_class.setdefault(key, []).append((k, d))
-    for key, items in by_class.items():
+    # understood classes first, then inputs that fit no class (at most 5 of those: one root cause tends to fail many inputs)
+    keys = sorted(by_class, key=lambda k: (k.startswith("in:"), len(schemas[by_class[k][0][0]]), len(by_class[k][0][1]["X"]), k))
+    unclassified = 0
+    for key in keys:
+        items = by_class[key]
+        if key.startswith("in:"):
+            unclassified += 1
+            if unclassified > 5:
+                ctx.hist("failing-classes", "further unclassified failing inputs (not written as replays)", len(items))
+                continue
         # smallest input of the class: fewest entities, then fewest parts
         items.sort(key=lambda kd: (len(schemas[kd[0]]), len(kd[1]["X"]), G.render_schema(schemas[kd[0]])))
         k, d = items[0]
@@ -481,7 +490,11 @@ def run(ctx):
         "renamed entities (USE/REFERENCE … AS) and names unknown to the registry are outside the quantifier",
     ]
     proof_ok = ctx.lean(PROPS, exes=["m_c08"], extractors=["c08_complex"])
-    if not os.path.exists(ctx.model_exe("m_c08")):
+    # the driver must be rebuilt against the regenerated constants even when a theorem no longer checks
+    from vlib import lean as L
+    ok, out = L.lake_build(["m_c08"])
+    if not ok or not os.path.exists(ctx.model_exe("m_c08")):
+        ctx.broken.append(("lake build m_c08", out[-1500:]))
         return
     b = ctx.build(FLAVOR)
     quick = ctx.tier == "quick"
@@ -490,7 +503,7 @@ def run(ctx):
         schemas.append(s); labels.append("corpus:" + nm)
     for nm, s in FIXED:
         schemas.append(s); labels.append("fixed:" + nm)
-    nrand, maxn, norders = (10, 6, 2) if quick else (300, 8, 3)
+    nrand, maxn, norders = (10, 6, 2) if quick else (1200, 8, 3)
     shapes = ["tree", "diamond", "tworoots", "free"]
     for i in range(nrand):
         shape = shapes[i % len(shapes)]
@@ -528,6 +541,8 @@ def replay(ctx, path):
     r = d.get("replay", d)
     schema = r["schema"]
     ctx.lean(PROPS, exes=["m_c08"], extractors=["c08_complex"])
+    from vlib import lean as L
+    L.lake_build(["m_c08"])
     b = ctx.build(FLAVOR)
     problems, real = evaluate(ctx, b, [schema], ["replay"], 2, "replay")
     X = set(r.get("X") or [])
